@@ -81,8 +81,10 @@ package proxy
 //@   ghost callsite-requires [C03] Cache arg_expires == maxAge
 
 // 416 from the origin: once retried without the Range header (unless noRetry).
-//@ props C09 C16 C02
+//@ props C09 C16 C02 C14
 //@ func fetcher.handleUpstream416
+//@   decreases noRetry ? 0 : 2
+//@   ghost mutual fetcher.handleUpstreamResponse
 //@   ghost callsite-requires [C02] handleUpstreamResponse keyid(arg_key) == keyid(key)
 //@   nopanic
 //@   assigns HeaderDirectives new:http.Request url.URL http.Response@resp new:http.Response map_ ghost:upstream cache. map_map_cache.CacheKey atomic.Int64 ghost:mapsum ghost:fsinode ghost:jsize ghost:jexp ghost:handleinode ghost:isize ghost:icontent ghost:callcount
@@ -100,8 +102,10 @@ package proxy
 
 // 200 is stored when cacheable, 304 renews the stored entry, 416 is retried once;
 // every other answer is neither stored nor does it touch the cache.
-//@ props C06 C09 C16 C02
+//@ props C06 C09 C16 C02 C14
 //@ func fetcher.handleUpstreamResponse
+//@   decreases noRetry ? 1 : 3
+//@   ghost mutual fetcher.handleUpstream416
 //@   ghost callsite-requires [C02] handleUpstream200 keyid(arg_key) == keyid(key)
 //@   ghost callsite-requires [C02] handleUpstream304 keyid(arg_key) == keyid(key)
 //@   ghost callsite-requires [C02] handleUpstream416 keyid(arg_key) == keyid(key)
